@@ -86,6 +86,10 @@ def descriptor_set(draw, n_rdm, n_cond):
 def build(vecs, desc=None):
     """fresh RDMs object from the case"""
     a = np.array(vecs, dtype=float)
+    if a.size and not np.isnan(a).any() and np.all(a == np.round(a)) and int(np.abs(a).sum()) % 2 == 0:
+        # integer-valued RDMs held in an integer array (RDMs keeps the dtype of vector input):
+        # every other integral case, as a deterministic function of the case
+        a = a.astype(np.int64)
     if desc is None:
         return RDMs(a)
     rd = {k: gen.as_desc(v['values'], v['container']) for k, v in desc['rdm_descriptors'].items()}
